@@ -117,6 +117,18 @@ def frame_iterator(inp: IO[bytes]) -> Generator[jelly.RdfStreamFrame]:
         yield frame
 
 
+def _replay_skipped(
+    skipped: list[bytes | int],
+) -> Generator[jelly.RdfStreamFrame]:
+    """Hand out the row-less frames that preceded the options row."""
+    for item in skipped:
+        if isinstance(item, int):
+            for _ in range(item):
+                yield jelly.RdfStreamFrame()
+        else:
+            yield parse(jelly.RdfStreamFrame, item)
+
+
 def get_options_and_frames(
     inp: IO[bytes],
 ) -> tuple[ParserOptions, Iterator[jelly.RdfStreamFrame]]:
@@ -147,20 +159,29 @@ def get_options_and_frames(
 
     if is_delimited:
         first_frame = None
-        skipped_frames = []
+        # Row-less frames before the options row are handed out again later. They are
+        # kept as their bytes, runs of empty ones as a count: a message object costs
+        # about 1 KB, and a source may send an empty frame with every byte.
+        skipped: list[bytes | int] = []
         frames = frame_iterator(inp)
         for frame in frames:
-            if not frame.rows:
-                skipped_frames.append(frame)
-            else:
+            if frame.rows:
                 first_frame = frame
                 break
+            data = frame.SerializeToString()
+            last = skipped[-1] if skipped else None
+            if data:
+                skipped.append(data)
+            elif isinstance(last, int):
+                skipped[-1] = last + 1
+            else:
+                skipped.append(1)
         if first_frame is None:
             msg = "No non-empty frames found in the stream"
             raise JellyConformanceError(msg)
 
         options = options_from_frame(first_frame, delimited=True)
-        return options, chain(skipped_frames, (first_frame,), frames)
+        return options, chain(_replay_skipped(skipped), (first_frame,), frames)
 
     frame = parse(jelly.RdfStreamFrame, inp.read())
 
